@@ -312,6 +312,8 @@ func runModSession(src *choice.Src, prop string) *core.Result {
 	}
 	res.Logf("%s session: %s, %d operations\n%s", prop, map[bool]string{true: "go.work", false: "go.mod"}[work], nops, text)
 	var history []string
+	var kept []mOp // bulk operations whose list objects the caller still holds
+	noted := map[string]bool{}
 	persists := 0
 	for i := 0; i < nops && res.Violation == nil; i++ {
 		if src.Bool(1, 5) {
@@ -359,6 +361,15 @@ func runModSession(src *choice.Src, prop string) *core.Result {
 				s.real.cleanup()
 			}
 			history = append(history, "Cleanup")
+			// The caller owns the list it passes: the same objects go to both of its files, and one time
+			// in three it passes a list again that it used earlier in the session.
+			if len(kept) > 0 && kept[0].name == op.name && src.Bool(1, 3) {
+				op = kept[src.Intn(len(kept))]
+				res.Probes["bulk-list-passed-again"]++
+			} else {
+				op.callerLists()
+				kept = append(kept, op)
+			}
 		}
 		history = append(history, op.String())
 		for _, s := range []*session{A, B} {
@@ -372,6 +383,17 @@ func runModSession(src *choice.Src, prop string) *core.Result {
 				break
 			}
 			s.applyModel(op)
+		}
+		// whatever the caller handed over is as the caller left it
+		// Not a violation by itself (the properties speak about the files): recorded because it explains
+		// later mismatches; the consequences are what the oracles judge, since the model applies what the
+		// caller believes the list holds while the real file gets the objects as they are.
+		for _, k := range kept {
+			if d := k.callerListsIntact(); d != "" && !noted[d] {
+				noted[d] = true
+				res.Probes["caller-list-modified-behind-the-callers-back"]++
+				res.Logf("note: the list the caller passed to %s was modified: %s", k.name, d)
+			}
 		}
 		res.Steps++
 	}
